@@ -196,6 +196,11 @@ func (t1 *Tasks) Merge(t2 *Tasks, include *Include, includedTaskfileVars *Vars) 
 	// another alias for each of them.
 	_, t2DefaultExists := t2.Get("default")
 	_, t1NamespaceExists := t1.Get(include.Namespace)
+	// An excluded default task was not merged: whatever task of the parent is
+	// called "<namespace>:default" then is not the included Taskfile's
+	if slices.Contains(include.Excludes, "default") {
+		t2DefaultExists = false
+	}
 	if t2DefaultExists && !t1NamespaceExists && !include.Flatten {
 		defaultTaskName := fmt.Sprintf("%s:default", include.Namespace)
 		t1DefaultTask, ok := t1.Get(defaultTaskName)
